@@ -49,6 +49,9 @@ M_TP2 = M_T | mf('PAYLOAD', 'PAYLOAD2')
 M_P  = mf('PHASE_REQ', 'GUARD_CANCEL', 'REPORT', 'REPORT_OTHER', 'PLAN_EDIT', 'LIFE_EDIT')   # plans
 M_P0 = mf('PHASE_REQ', 'GUARD_CANCEL', 'REPORT', 'PLAN_EDIT')
 M_PG = M_P | mf('GUARD_REQ', 'GUARD_REPORT')
+M_TC = M_T | mf('COMPOSITE')          # + several actions per callback invocation (request twice, request then cancel, fail then succeed, ...)
+M_GC = M_G | mf('COMPOSITE')
+M_PC = M_P0 | mf('COMPOSITE')
 O_T  = og('CORE', 'REACT', 'QUERY')
 O_TALL = O_T | og('REPLAY', 'COPY', 'DESTROY', 'LOG', 'MANUAL', 'SERIAL', 'PAYLOAD')      # groups unavailable in a configuration are compiled out
 O_P  = og('CORE', 'PLAN', 'REPORT', 'LOG')
@@ -65,11 +68,11 @@ SPECS = {
     thorough=[S('T1', 3, M_T, O_TALL, W), S('T2', 3, M_TP, O_TALL, W), S('T3', 4, M_T, O_TALL), S('T3h', 4, M_T, O_TALL), S('T4', 2, M_T, O_TALL, W), S('T5', 2, M_TP, O_TALL, W), S('T6', 3, M_TP, O_TALL, W),
               S('P3', 3, M_P, O_PALL, W), S('P5', 2, M_P, O_PALL, W), S('P2', 1, M_P | mf('PAYLOAD'), O_PALL, W)]),
  'C02': dict(
-    quick=[S('T1', 2, M_T, O_T), S('T2', 2, M_TP, O_T | og('PAYLOAD', 'MANUAL')), S('T3', 3, M_T, O_T), S('P5', 1, M_P, O_P), S('T4', 1, M_T, O_T), S('I2', 2, M_T | mf('INJ_DECIDE'), og('CORE'))],
-    thorough=[S('I1', 2, M_T | mf('INJ_DECIDE'), og('CORE'), W), S('T1', 3, M_T, O_T, W), S('T8', 3, M_T, O_T, W), S('T2', 3, M_TP2, O_T | og('PAYLOAD', 'PAYLOAD2', 'MANUAL'), W), S('T3', 4, M_T, O_T), S('T4', 2, M_T, O_T, W), S('T6', 3, M_TP, O_T | og('PAYLOAD'), W), S('P5', 2, M_PG, O_P, W), S('P1', 1, M_P0, O_P, W)]),
+    quick=[S('T1', 2, M_T, O_T), S('T1', 2, M_TC, og('CORE')), S('T2', 2, M_TP, O_T | og('PAYLOAD', 'MANUAL')), S('T3', 3, M_TC, O_T), S('P5', 1, M_P, O_P), S('P5', 1, M_PC, O_P), S('T4', 1, M_T, O_T), S('I2', 2, M_T | mf('INJ_DECIDE'), og('CORE'))],
+    thorough=[S('I1', 2, M_T | mf('INJ_DECIDE'), og('CORE'), W), S('T1', 3, M_TC, og('CORE'), W), S('P5', 2, M_PC, O_P, W), S('T1', 3, M_T, O_T, W), S('T8', 3, M_T, O_T, W), S('T2', 3, M_TP2, O_T | og('PAYLOAD', 'PAYLOAD2', 'MANUAL'), W), S('T3', 4, M_T, O_T), S('T4', 2, M_T, O_T, W), S('T6', 3, M_TP, O_T | og('PAYLOAD'), W), S('P5', 2, M_PG, O_P, W), S('P1', 1, M_P0, O_P, W)]),
  'C03': dict(
-    quick=[S('T1', 3, M_G, O_T), S('T2', 3, M_G | mf('PAYLOAD'), O_T | og('PAYLOAD', 'MANUAL', 'REPLAY', 'SERIAL')), S('T3', 3, M_G, O_T), S('T8', 3, M_G, og('CORE')), S('T1', 2, M_T, O_T | og('REPLAY')), S('I1', 2, M_G | mf('INJ_DECIDE'), og('CORE')), S('I2', 2, M_G | mf('INJ_DECIDE'), og('CORE'))],
-    thorough=[S('T1', 4, M_G, O_T, W), S('T8', 4, M_G, og('CORE'), W), S('T2', 4, M_G | mf('PAYLOAD'), O_T | og('PAYLOAD', 'MANUAL', 'REPLAY', 'SERIAL'), W), S('T3', 4, M_G, O_T), S('T4', 3, M_G, og('CORE'), W), S('T1', 3, M_T, O_T | og('REPLAY'), W), S('T5', 3, M_G | mf('PAYLOAD'), O_T | og('PAYLOAD', 'MANUAL', 'REPLAY', 'SERIAL'), W), S('I1', 3, M_G | mf('INJ_DECIDE'), og('CORE'), W), S('I2', 3, M_G | mf('INJ_DECIDE'), og('CORE'), W)]),
+    quick=[S('T1', 3, M_G, O_T), S('T2', 3, M_G | mf('PAYLOAD'), O_T | og('PAYLOAD', 'MANUAL', 'REPLAY', 'SERIAL')), S('T3', 3, M_G, O_T), S('T8', 3, M_G, og('CORE')), S('T1', 2, M_T, O_T | og('REPLAY')), S('I1', 2, M_G | mf('INJ_DECIDE'), og('CORE')), S('I2', 2, M_G | mf('INJ_DECIDE'), og('CORE')), S('T1', 2, M_GC, og('CORE')), S('T3', 3, M_GC, og('CORE'))],
+    thorough=[S('T1', 3, M_GC, og('CORE'), W), S('T8', 3, M_GC, og('CORE'), W), S('T1', 4, M_G, O_T, W), S('T8', 4, M_G, og('CORE'), W), S('T2', 4, M_G | mf('PAYLOAD'), O_T | og('PAYLOAD', 'MANUAL', 'REPLAY', 'SERIAL'), W), S('T3', 4, M_G, O_T), S('T4', 3, M_G, og('CORE'), W), S('T1', 3, M_T, O_T | og('REPLAY'), W), S('T5', 3, M_G | mf('PAYLOAD'), O_T | og('PAYLOAD', 'MANUAL', 'REPLAY', 'SERIAL'), W), S('I1', 3, M_G | mf('INJ_DECIDE'), og('CORE'), W), S('I2', 3, M_G | mf('INJ_DECIDE'), og('CORE'), W)]),
  'C04': dict(
     quick=[S('S1', 0, M_G, og('CORE'), W, ['--strategies']), S('S2', 0, M_G, og('CORE'), W, ['--strategies']), S('S3', 0, M_G, og('CORE'), W, ['--strategies']), S('S5', 0, M_G, og('CORE'), W, ['--strategies']), S('S255', 0, M_G, og('CORE'), W, ['--strategies']),
            S('T1', 3, M_G, og('CORE')), S('T3', 3, M_T, og('CORE'))],
@@ -79,18 +82,18 @@ SPECS = {
     quick=[S('T1', 2, M_T, O_T), S('T2', 2, M_TP, O_T | og('MANUAL')), S('T3', 3, M_T, O_T), S('P3', 2, M_P, O_P | og('REACT', 'QUERY')), S('P5', 1, M_P, O_P | og('REACT', 'QUERY')), S('T4', 1, M_T, O_T)],
     thorough=[S('T1', 3, M_T, O_T, W), S('T2', 3, M_TP, O_T | og('MANUAL'), W), S('T3', 4, M_T, O_T), S('T4', 2, M_T, O_T, W), S('P3', 3, M_P, O_P | og('REACT', 'QUERY'), W), S('P5', 2, M_P, O_P | og('REACT', 'QUERY'), W), S('I1', 2, M_T, O_T, W)]),
  'C06': dict(
-    quick=[S('T1', 2, M_T, O_T | og('REPLAY')), S('T2', 2, M_TP, O_T | og('PAYLOAD', 'MANUAL', 'REPLAY', 'SERIAL')), S('T9', 2, M_TP, O_T | og('PAYLOAD')), S('T3', 3, M_T, O_T), S('P5', 1, M_PG, O_P | og('REACT', 'QUERY')), S('T4', 1, M_T, O_T), S('I1', 1, M_T | mf('INJ_DECIDE'), O_T)],
+    quick=[S('T1', 2, M_T, O_T | og('REPLAY')), S('T2', 2, M_TP, O_T | og('PAYLOAD', 'MANUAL', 'REPLAY', 'SERIAL')), S('T9', 2, M_TP, O_T | og('PAYLOAD')), S('T3', 3, M_T, O_T), S('P5', 1, M_PG, O_P | og('REACT', 'QUERY')), S('T4', 1, M_T, O_T), S('I1', 1, M_T | mf('INJ_DECIDE'), O_T), S('T1', 2, M_TC, og('CORE'))],
     thorough=[S('T1', 3, M_T, O_T | og('REPLAY'), W), S('T2', 3, M_TP, O_T | og('PAYLOAD', 'MANUAL', 'REPLAY', 'SERIAL'), W), S('T9', 3, M_TP, O_T | og('PAYLOAD'), W), S('T3', 4, M_T, O_T), S('T4', 2, M_T, O_T, W), S('T5', 2, M_TP, O_TALL, W), S('P5', 2, M_PG, O_P | og('REACT', 'QUERY'), W), S('I1', 2, M_T | mf('INJ_DECIDE'), O_T, W)]),
  'C07': dict(
-    quick=[S('T2', 2, M_TP2, O_T | og('PAYLOAD', 'PAYLOAD2', 'MANUAL')), S('T6', 2, M_TP2, O_T | og('PAYLOAD', 'PAYLOAD2')), S('T9', 2, M_TP2, O_T | og('PAYLOAD', 'PAYLOAD2')), S('P7', 1, M_P | mf('PAYLOAD'), O_P | og('PAYLOAD'))],
+    quick=[S('T2', 2, M_TP | mf('COMPOSITE'), og('CORE', 'PAYLOAD', 'MANUAL')), S('T9', 2, M_TP | mf('COMPOSITE'), og('CORE', 'PAYLOAD')), S('T2', 2, M_TP2, O_T | og('PAYLOAD', 'PAYLOAD2', 'MANUAL')), S('T6', 2, M_TP2, O_T | og('PAYLOAD', 'PAYLOAD2')), S('T9', 2, M_TP2, O_T | og('PAYLOAD', 'PAYLOAD2')), S('P7', 1, M_P | mf('PAYLOAD'), O_P | og('PAYLOAD'))],
     thorough=[S('T2', 3, M_TP2, O_T | og('PAYLOAD', 'PAYLOAD2', 'MANUAL'), W), S('T6', 3, M_TP2, O_T | og('PAYLOAD', 'PAYLOAD2'), W), S('T9', 3, M_TP2, O_T | og('PAYLOAD', 'PAYLOAD2'), W), S('T5', 2, M_TP2, O_T | og('PAYLOAD', 'PAYLOAD2', 'MANUAL'), W), S('P7', 2, M_P0 | mf('PAYLOAD'), O_P | og('PAYLOAD'), W), S('P2', 1, M_P0 | mf('PAYLOAD'), O_P | og('PAYLOAD', 'MANUAL'), W)]),
  'C08': dict(
-    quick=[S('P5', 2, M_P0, O_P, W), S('P3', 2, M_P, O_P | og('PLAN_REMOVE')), S('P6', 1, M_P, O_P | og('PLAN_REMOVE'), W), S('P5', 1, M_PG, O_P | og('REACT', 'PLAN_REMOVE'), W)],
-    thorough=[S('P5', 2, M_PG, O_P | og('REACT', 'PLAN_REMOVE'), W, share=3), S('P3', 3, M_P, O_P | og('PLAN_REMOVE'), W), S('P6', 2, M_P, O_P | og('PLAN_REMOVE'), W), S('P1', 1, M_P0, O_P, W, share=4), S('P7', 1, M_P | mf('PAYLOAD'), O_P | og('PAYLOAD'), W), S('P2', 1, M_P0 | mf('PAYLOAD'), O_P | og('PAYLOAD', 'MANUAL'), W, share=2)]),
+    quick=[S('P5', 2, M_P0, O_P, W), S('P3', 2, M_P, O_P | og('PLAN_REMOVE')), S('P6', 1, M_P, O_P | og('PLAN_REMOVE'), W), S('P5', 1, M_PG, O_P | og('REACT', 'PLAN_REMOVE'), W), S('P5', 1, M_PC, O_P, W), S('P3', 2, M_PC, O_P)],
+    thorough=[S('P5', 2, M_PC, O_P, W, share=2), S('P5', 2, M_PG, O_P | og('REACT', 'PLAN_REMOVE'), W, share=3), S('P3', 3, M_P, O_P | og('PLAN_REMOVE'), W), S('P6', 2, M_P, O_P | og('PLAN_REMOVE'), W), S('P1', 1, M_P0, O_P, W, share=4), S('P7', 1, M_P | mf('PAYLOAD'), O_P | og('PAYLOAD'), W), S('P2', 1, M_P0 | mf('PAYLOAD'), O_P | og('PAYLOAD', 'MANUAL'), W, share=2)]),
  'C09': dict(
-    quick=[S('P5', 2, M_P0, O_P, W), S('P3', 2, M_P, O_P | og('PLAN_REMOVE'), prefills=[0x00, 0xFF, 0xA5]), S('P6', 1, M_P, O_P | og('PLAN_REMOVE'), W), S('P5h', 1, M_P0, O_P | og('SERIAL', 'REPLAY'), W, prefills=[0xFF, 0xA5]),
+    quick=[S('P5', 2, M_P0, O_P, W), S('P5', 1, M_PC, O_P, W), S('P3', 2, M_PC, O_P), S('P3', 2, M_P, O_P | og('PLAN_REMOVE'), prefills=[0x00, 0xFF, 0xA5]), S('P6', 1, M_P, O_P | og('PLAN_REMOVE'), W), S('P5h', 1, M_P0, O_P | og('SERIAL', 'REPLAY'), W, prefills=[0xFF, 0xA5]),
            S('P3', 1, M_P, O_P | og('PLAN_REMOVE'), variant='plain-O0', prefills=[0x00, 0xFF, 0xA5]), S('P5', 1, M_P0, O_P, variant='plain-O0', prefills=[0x00, 0xFF])],
-    thorough=[S('P5', 2, M_PG, O_P | og('REACT', 'PLAN_REMOVE'), W, share=3, prefills=[0x00, 0xFF]), S('P3', 3, M_P, O_P | og('PLAN_REMOVE'), W, prefills=[0x00, 0xFF, 0xA5]), S('P6', 2, M_P, O_P | og('PLAN_REMOVE'), W), S('P1', 1, M_P0, O_P, W, share=4), S('P2', 1, M_P0 | mf('PAYLOAD'), O_P | og('PAYLOAD', 'MANUAL'), W, share=2), S('P5h', 1, M_P, O_P | og('SERIAL', 'REPLAY'), W)]),
+    thorough=[S('P5', 2, M_PC, O_P, W, share=2), S('P5', 2, M_PG, O_P | og('REACT', 'PLAN_REMOVE'), W, share=3, prefills=[0x00, 0xFF]), S('P3', 3, M_P, O_P | og('PLAN_REMOVE'), W, prefills=[0x00, 0xFF, 0xA5]), S('P6', 2, M_P, O_P | og('PLAN_REMOVE'), W), S('P1', 1, M_P0, O_P, W, share=4), S('P2', 1, M_P0 | mf('PAYLOAD'), O_P | og('PAYLOAD', 'MANUAL'), W, share=2), S('P5h', 1, M_P, O_P | og('SERIAL', 'REPLAY'), W)]),
  'C11': dict(
     quick=[S('T1', 2, M_T, O_T | og('REPLAY', 'COPY'), flags=['--replica']), S('T2', 2, M_TP, O_T | og('PAYLOAD', 'MANUAL', 'REPLAY', 'COPY', 'SERIAL'), flags=['--replica']), S('T3h', 3, M_T, O_T | og('REPLAY'), flags=['--replica']), S('T4', 1, M_T, O_T | og('REPLAY'), flags=['--replica'])],
     thorough=[S('T1', 3, M_T, O_T | og('REPLAY', 'COPY'), W, ['--replica']), S('T2', 3, M_TP, O_T | og('PAYLOAD', 'MANUAL', 'REPLAY', 'COPY', 'SERIAL'), W, ['--replica']), S('T3h', 4, M_T, O_T | og('REPLAY'), flags=['--replica']), S('T4', 2, M_T, O_T | og('REPLAY'), W, ['--replica']),
